@@ -22,7 +22,7 @@ VERIF = os.path.dirname(os.path.dirname(os.path.abspath(__file__)))
 REPO = os.environ.get("VERIF_REPO", "/repo")
 SPEC = os.path.join(VERIF, "spec")
 HARNESS_SRC = os.path.join(VERIF, "harness")
-BUILD = os.path.join(VERIF, ".build")
+BUILD = os.environ.get("VERIF_BUILD", os.path.join(VERIF, ".build"))
 NCPU = os.cpu_count() or 4
 
 
@@ -185,6 +185,28 @@ def leg_a(scratch, module, cfg, workers=None, timeout=1800, heap="8g", expect_fa
                     % (module, cfg, r["out"][-3000:]))
     log("[legA] %s/%s: %d generated, %d distinct, depth %d, %.1fs" %
         (module, cfg, r["generated"], r["distinct"], r["depth"], r["wall"]))
+    return r
+
+
+def proof(scratch, module, timeout=900):
+    """Unbounded argument about the DESIGN: run the TLA+ proof system on <module>.tla (a hierarchical proof of an
+    inductive invariant of the design module it EXTENDS).  Advisory - it says nothing about the code, so it can
+    neither raise nor clear a violation: the result goes into the evidence."""
+    wd = scratch.sub("proof-" + module)
+    stage_spec(wd)
+    t0 = time.time()
+    try:
+        p = subprocess.run(["tlapm", "--threads", str(min(NCPU, 8)), module + ".tla"], cwd=wd, stdout=subprocess.PIPE,
+                           stderr=subprocess.STDOUT, text=True, timeout=timeout, errors="replace")
+        out = p.stdout
+    except (subprocess.TimeoutExpired, OSError) as e:
+        out = "tlapm: %s" % e
+    m = re.search(r"All (\d+) obligations? proved", out)
+    r = {"module": module, "proved": bool(m), "obligations": int(m.group(1)) if m else 0, "wall_s": round(time.time() - t0, 1)}
+    if not m:
+        f = re.search(r"(\d+)/(\d+) obligations failed", out)
+        r["detail"] = f.group(0) if f else out[-300:]
+    log("[proof] %s: %s" % (module, "all %d obligations proved" % r["obligations"] if r["proved"] else "NOT proved (%s)" % r["detail"]))
     return r
 
 
